@@ -680,24 +680,80 @@ def set_partition_orderings(n):
 
 
 def comparison_only(dag, names):
-    """slots occur only under comparisons / kth / as identity leaves"""
+    """The slot words (and the order statistics / selections made of them) occur only under comparisons, as
+    arguments of order statistics, as selected values and inside returned aggregates — never inside arithmetic
+    or bit operations (which would look *into* a word)."""
+    nodes = list(walk(dag))
     parents = {}
-    for x in walk(dag):
+    for x in nodes:
         for ch in children(x):
             parents.setdefault(id(ch), []).append(x)
-    for x in walk(dag):
+    words = {}
+    for x in nodes:
         if x[0] == "atom" and x[1] in names:
-            for p_ in parents.get(id(x), []):
-                if p_[0] == "bin" and p_[1] in ("Lt", "Le", "Gt", "Ge", "Eq", "Ne"):
-                    continue
-                if p_[0] == "call" and p_[1] == "kth":
-                    continue
-                if p_[0] == "ite" and p_[1] is not x:
-                    continue
-                if p_[0] == "agg":
-                    continue
-                return False, "slot %s flows into %s" % (x[1], p_[1] if p_[0] in ("bin", "call", "un") else p_[0])
+            words[id(x)] = x
+    changed = True
+    while changed:
+        changed = False
+        for x in nodes:
+            if id(x) in words:
+                continue
+            if x[0] == "call" and x[1] == "kth" and all(id(e) in words or e[0] == "c" for e in x[2][1:]):
+                words[id(x)] = x
+                changed = True
+            elif x[0] == "ite" and id(x[2]) in words and id(x[3]) in words:
+                words[id(x)] = x
+                changed = True
+    for wid, x in words.items():
+        for p_ in parents.get(wid, []):
+            if p_[0] == "bin" and p_[1] in ("Lt", "Le", "Gt", "Ge", "Eq", "Ne"):
+                continue
+            if p_[0] == "call" and p_[1] == "kth":
+                continue
+            if p_[0] == "ite" and p_[1] is not x:
+                continue
+            if p_[0] == "agg":
+                continue
+            what = x[1] if x[0] == "atom" else "an order statistic of the slots"
+            return False, "%s flows into %s" % (what, p_[1] if p_[0] in ("bin", "call", "un") else p_[0])
     return True, ""
+
+
+def card_hands(n):
+    """Hands of n card words covering every rank pattern of the 7462 five-card classes (suits varied), in a scrambled
+    slot order — used to look for counterexamples when a function is not comparison-only."""
+    out = []
+    extra = [oracle.card_word(r, s_) for r in (0, 1) for s_ in (0, 1, 2, 3)]
+    for ci, c in enumerate(oracle.classes()):
+        ws = []
+        for j, r in enumerate(c["ranks"]):
+            su = 3 if c["flush"] else (j + ci) % 4
+            w = oracle.card_word(r, su)
+            k = 0
+            while w in ws:
+                k += 1
+                w = oracle.card_word(r, (su + k) % 4)
+            ws.append(w)
+        for e in extra:
+            if len(ws) >= n:
+                break
+            if e not in ws:
+                ws.append(e)
+        ws = ws[:n]
+        rot = ci % n
+        out.append(ws[rot:] + ws[:rot])
+    return out
+
+
+def refute_sort_on_cards(ctx, elems, names):
+    """-> first (input, output) on which `elems` (result slots over atoms `names`) is not the descending rearrangement"""
+    n = len(names)
+    for hand in card_hands(n):
+        env = dict(zip(names, hand))
+        got = [cval(ctx.fold(x, env)) for x in elems]
+        if got != sorted(hand, reverse=True):
+            return hand, got
+    return None
 
 
 def check_C11(ctx):
@@ -737,7 +793,11 @@ def check_C11(ctx):
             for label, dag, key in (("in_place", out_in, k_in), ("copy", out_cp, k_cp)):
                 ok, why = comparison_only(dag, set(names))
                 if not ok:
-                    rep.uncertified("C11.sort." + label, "%s: %s — not a comparison sort of whole words" % (short(path), why), pdb.where(key))
+                    cex = refute_sort_on_cards(ctx, arr_of(dag), names)
+                    if cex:
+                        rep.ob("C11.sort." + label, short(path), False, "sorting %s gives %s: not the same words in non-increasing order (the sort looks inside the words: %s)" % ([hex(w) for w in cex[0]], [hex(w) if w is not None else w for w in cex[1]], why), pdb.where(key))
+                    else:
+                        rep.uncertified("C11.sort." + label, "%s: %s — not a comparison sort of whole words" % (short(path), why), pdb.where(key))
                     return
             orders = weak_orderings(n) if (ctx.tier == "thorough" or n <= 5) else set_partition_orderings(n)
             bad_in = bad_cp = bad_idem = 0
